@@ -17,6 +17,109 @@ use std::time::Duration;
 const E9: u64 = 1_000_000_000;
 const NOW: u64 = 1_000 * E9;
 
+/// C16, concurrent part: programs with `cfg.cachemode` run their `c_*` ops on a standalone `ClockCache` whose keys all
+/// live in bucket 0; the lock acquisitions on that bucket (hook `cache_point`) are scheduling points.  The controller
+/// logs one TraceCache.tla event per critical section: every call when it returns (its last section ran in the same
+/// scheduler step), plus an "evict" event when a sweep inside `insert` has run.
+pub struct CacheCtx {
+    cache: feoxdb::core::cache::ClockCache,
+    keys: Vec<Vec<u8>>,
+    key_id: HashMap<Vec<u8>, u32>,
+    gens: HashMap<u32, Arc<feoxdb::core::record::Record>>,
+    addr_gen: HashMap<usize, u32>,
+    serial: std::sync::atomic::AtomicU64,
+    events: Mutex<Vec<Value>>,
+}
+static CACHE: Mutex<Option<Arc<CacheCtx>>> = Mutex::new(None);
+
+fn cache_ctx() -> Option<Arc<CacheCtx>> {
+    CACHE.lock().unwrap().clone()
+}
+
+fn cache_key_in_bucket0(id: u32) -> Vec<u8> {
+    let mut n = 0u64;
+    loop {
+        let k = format!("ck{id}-{n}").into_bytes();
+        if feoxdb::core::cache::ClockCache::verif_bucket_of(&k) == 0 { return k; }
+        n += 1;
+    }
+}
+
+impl CacheCtx {
+    fn new(cfg: &Value, gens: &Value) -> Self {
+        let cache = feoxdb::core::cache::ClockCache::new(Arc::new(feoxdb::Statistics::new()));
+        cache.verif_set_watermarks(cfg["high"].as_u64().unwrap_or(1 << 20) as usize, cfg["low"].as_u64().unwrap_or(1 << 19) as usize);
+        let nkeys = cfg["nkeys"].as_u64().unwrap_or(3) as u32;
+        let keys: Vec<Vec<u8>> = (1..=nkeys).map(cache_key_in_bucket0).collect();
+        let key_id = keys.iter().enumerate().map(|(i, k)| (k.clone(), i as u32 + 1)).collect();
+        let mut g = HashMap::new();
+        let mut addr = HashMap::new();
+        for x in gens.as_array().unwrap_or(&Vec::new()) {
+            let (gid, k, ts) = (x[0].as_u64().unwrap() as u32, x[1].as_u64().unwrap() as usize, x[2].as_u64().unwrap());
+            let arc = Arc::new(feoxdb::core::record::Record::new(keys[k - 1].clone(), Vec::new(), ts));
+            addr.insert(Arc::as_ptr(&arc) as usize, gid);
+            g.insert(gid, arc);
+        }
+        Self { cache, keys, key_id, gens: g, addr_gen: addr, serial: std::sync::atomic::AtomicU64::new(0), events: Mutex::new(Vec::new()) }
+    }
+
+    /// What the implementation reports right now, appended to `ev` (the vocabulary of TraceCache.tla).
+    fn log(&self, mut ev: Value) {
+        let st = self.cache.stats();
+        let ents: Vec<Value> = self.cache.verif_entries().iter().map(|e| {
+            let g: i64 = if e.tag == 0 { 0 } else { self.addr_gen.get(&e.tag).map_or(-1, |g| *g as i64) };
+            json!({"k": self.key_id.get(&e.key).map_or(-1, |k| *k as i64), "g": g, "sz": e.size,
+                   "ref": if e.referenced { 1 } else { 0 }, "b": feoxdb::core::cache::ClockCache::verif_bucket_of(&e.key),
+                   "alive": if e.tag_alive { 1 } else { 0 }})
+        }).collect();
+        ev["mem"] = json!(st.memory_usage);
+        ev["high"] = json!(st.high_watermark);
+        ev["low"] = json!(st.low_watermark);
+        ev["hand"] = json!(0);      // one occupied bucket: a hand anywhere else behaves like a hand at bucket 0
+        ev["ents"] = Value::Array(ents);
+        self.events.lock().unwrap().push(ev);
+    }
+
+    /// One cache call; returns the TraceCache event of the call (without the state, which the controller adds).
+    fn exec(&self, op: &Value) -> Value {
+        let k = op["k"].as_u64().unwrap_or(0) as u32;
+        let g = op["g"].as_u64().unwrap_or(0) as u32;
+        let key = if k > 0 { self.keys[k as usize - 1].clone() } else { Vec::new() };
+        match op["op"].as_str().unwrap_or("") {
+            "c_ins" => {
+                let vlen = (op["vlen"].as_u64().unwrap_or(16) as usize).max(16);
+                let ser = self.serial.fetch_add(1, std::sync::atomic::Ordering::SeqCst) + 1;
+                let mut v = vec![(ser % 251) as u8; vlen];
+                v[0..4].copy_from_slice(&k.to_le_bytes());
+                v[4..8].copy_from_slice(&g.to_le_bytes());
+                v[8..16].copy_from_slice(&ser.to_le_bytes());
+                if g == 0 { self.cache.insert(key, bytes::Bytes::from(v)); }
+                else { self.cache.verif_insert_for_record(key, bytes::Bytes::from(v), &self.gens[&g]); }
+                json!({"op": "insert", "k": k, "g": g, "vlen": vlen, "ser": ser, "res": "done", "vg": 0})
+            }
+            "c_get" => {
+                let r = if g == 0 { self.cache.get(&key) } else { self.cache.verif_get_for_record(&key, &self.gens[&g]) };
+                match r {
+                    Some(v) if v.len() >= 16 => json!({"op": "get", "k": k, "g": g, "res": "hit",
+                        "vk": u32::from_le_bytes(v[0..4].try_into().unwrap()), "vg": u32::from_le_bytes(v[4..8].try_into().unwrap()),
+                        "vser": u64::from_le_bytes(v[8..16].try_into().unwrap()), "vlen": v.len()}),
+                    Some(v) => json!({"op": "get", "k": k, "g": g, "res": "hit", "vk": -1, "vg": -1, "vser": 0, "vlen": v.len()}),
+                    None => json!({"op": "get", "k": k, "g": g, "res": "miss", "vk": 0, "vg": 0, "vser": 0, "vlen": 0}),
+                }
+            }
+            "c_rem" => {
+                if g == 0 { self.cache.remove(&key); } else { self.cache.verif_remove_for_record(&key, &self.gens[&g]); }
+                json!({"op": "remove", "k": k, "g": g, "res": "done", "vg": 0})
+            }
+            "c_evict" => {
+                self.cache.evict_entries();
+                json!({"op": "evict", "k": 0, "g": 0, "res": "ok", "vg": 0})
+            }
+            other => panic!("unknown cache op {other}"),
+        }
+    }
+}
+
 fn bytes_of(v: &Value) -> Vec<u8> {
     match v["k"].as_str().unwrap_or("b") {
         "i" => v["n"].as_i64().unwrap_or(0).to_le_bytes().to_vec(),
@@ -50,6 +153,10 @@ fn ts_of(op: &Value) -> Option<u64> {
 
 /// Execute one op description on the store; returns (result json, items for range).
 fn exec(store: &Arc<FeoxStore>, keys: &[Vec<u8>], op: &Value, vals: &Mutex<ValTable>) -> (Value, Value) {
+    if op["op"].as_str().map_or(false, |n| n.starts_with("c_")) {
+        let cx = cache_ctx().expect("cache op outside a cache program");
+        return (json!({"tag": "cache", "n": 0, "val": noval(), "tt": [0, 0, 0], "cev": cx.exec(op)}), json!([]));
+    }
     let k = op["k"].as_u64().unwrap_or(1) as usize;
     let key: &[u8] = if k == 0 { b"" } else { &keys[k - 1] };
     let ttl = op["ttlv"].as_u64().unwrap_or(0);
@@ -257,7 +364,21 @@ fn setup_program(prog: &Value, path: &str) -> (Arc<Shared>, Vec<Vec<Value>>) {
     let keys: Vec<Vec<u8>> = prog["keys"].as_array().unwrap().iter().map(|k| k.as_str().unwrap().as_bytes().to_vec()).collect();
     let _ = std::fs::remove_file(path);
     let store = Arc::new(build_store(cfg, path));
+    if cfg["cachemode"].as_bool().unwrap_or(false) {
+        let cx = Arc::new(CacheCtx::new(cfg, &prog["gens"]));
+        cx.log(json!({"op": "init", "k": 0, "g": 0, "nb": 1, "nkeys": cx.keys.len(), "res": "ok", "vg": 0}));
+        *CACHE.lock().unwrap() = Some(cx.clone());
+        for op in prog["init"].as_array().unwrap_or(&Vec::new()) {
+            let ev = cx.exec(op);
+            cx.log(ev);
+        }
+        feoxdb::verif::cache_locks::watch(&[cx.cache.verif_bucket_lock_addr(0)], true);
+    } else {
+        *CACHE.lock().unwrap() = None;
+        feoxdb::verif::cache_locks::watch(&[], false);
+    }
     for op in prog["init"].as_array().unwrap_or(&Vec::new()) {
+        if op["op"].as_str().map_or(false, |n| n.starts_with("c_")) { continue; }
         let vals = Mutex::new(ValTable::new());
         let (r, _) = exec(&store, &keys, op, &vals);
         if r["tag"].as_str().map_or(true, |t| !["bool", "unit", "num", "OutOfMemory"].contains(&t)) {
@@ -313,6 +434,7 @@ fn run_schedule_arrivals(prog: &Value, schedule: &[usize], path: &str, pinout: O
     let mut blocked = vec![false; nthreads];
     let mut all_blocked_rounds = 0usize;
     let mut last_point: Vec<&'static str> = vec![""; nthreads];
+    let mut logged_calls: Vec<Option<u64>> = vec![None; nthreads];
     while alive.iter().any(|a| *a) {
         let mut runnable: Vec<usize> = (0..nthreads).filter(|i| alive[*i] && !blocked[*i]).collect();
         if runnable.is_empty() {
@@ -349,10 +471,39 @@ fn run_schedule_arrivals(prog: &Value, schedule: &[usize], path: &str, pinout: O
         // the fine-grained points inside the ordered-index updates and the version clock are decision points only for the
         // programs that name them; everywhere else the thread walks straight through
         while let Some(name) = arrived {
-            if !((name.starts_with("tree_") || name == "clock_load" || name == "ext_load") && !fine_points.iter().any(|x| x == name)) { break; }
+            if !((name.starts_with("tree_") || name.starts_with("cache_") || name == "clock_load" || name == "ext_load") && !fine_points.iter().any(|x| x == name)) { break; }
             arrived = feoxdb::verif::sched::step(ids[pick], step_to);
         }
         arrivals.push((pick, arrived.unwrap_or("done")));
+        if let Some(cx) = cache_ctx() {
+            // one TraceCache event per critical section (see CacheCtx)
+            let left = last_point[pick];
+            let returned = matches!(arrived, None | Some("between_ops"));
+            // an exclusive section that is not the call's last one: a pass of the sweep over the watched bucket
+            // (evict_entries inside insert, or an explicit sweep that is not finished yet)
+            if left == "cache_wr" && !returned && arrived != Some("<stall>") {
+                cx.log(json!({"op": "sweep_part", "k": 0, "g": 0, "res": "ok", "vg": 0, "t": pick + 1}));
+            }
+            if returned {
+                // the call this thread has just finished (its result was stored before it parked)
+                let idx = sh.invs.lock().unwrap().iter().enumerate().rev().find(|(_, (t, _))| *t == pick + 1).map(|(i, _)| i as u64);
+                if let Some(i) = idx {
+                    if logged_calls[pick] != Some(i) {
+                        if let Some((r, _)) = sh.ress.lock().unwrap().get(&i) {
+                            let mut ev = r["cev"].clone();
+                            if ev.is_object() {
+                                // under concurrency a sweep promises nothing at its return (another thread may have
+                                // inserted meanwhile, or held the eviction lock): unconstrained
+                                if ev["op"] == "evict" { ev["op"] = json!("evict_conc"); }
+                                ev["t"] = json!(pick + 1);
+                                cx.log(ev);
+                                logged_calls[pick] = Some(i);
+                            }
+                        }
+                    }
+                }
+            }
+        }
         match arrived {
             None => { alive[pick] = false; for b in blocked.iter_mut() { *b = false; } }
             // the thread is blocked on a lock or channel that a parked thread owns: run the others
@@ -376,6 +527,14 @@ fn run_schedule_arrivals(prog: &Value, schedule: &[usize], path: &str, pinout: O
         }
         obs::uninstall();
         let _ = obs::take();
+        if let Some(cx) = cache_ctx() {
+            // a cache program: what was recorded up to the stall is still a valid prefix (a thread that panicked
+            // inside the cache never reaches its next point; its message is on stderr)
+            feoxdb::verif::cache_locks::watch(&[], false);
+            *CACHE.lock().unwrap() = None;
+            let ev = std::mem::take(&mut *cx.events.lock().unwrap());
+            return (ev, choices, true, parked_at, arrivals);
+        }
         return (vec![reset, json!({"e": "stall", "schedule": schedule})], choices, true, parked_at, arrivals);
     }
     for h in handles {
@@ -383,6 +542,12 @@ fn run_schedule_arrivals(prog: &Value, schedule: &[usize], path: &str, pinout: O
     }
     obs::uninstall();
     let raw = obs::take();
+    if let Some(cx) = cache_ctx() {
+        feoxdb::verif::cache_locks::watch(&[], false);
+        *CACHE.lock().unwrap() = None;
+        let ev = std::mem::take(&mut *cx.events.lock().unwrap());
+        return (ev, choices, false, parked_at, arrivals);
+    }
     let mut ev = vec![reset];
     ev.extend(history(&raw, &sh, &sh.keys));
     ev.push(final_event(&sh.store, &sh.keys));
